@@ -36,7 +36,7 @@ var termTargets = []pcTarget{
 	{"text/terminal", "", "TimeDuration", true}, {"text/terminal", "", "Regexp", true},
 }
 
-type tmMode struct{}
+type tmMode struct{ l *concLoader }
 
 func writeTermFacts(path string) error { return pcWrite(path, nil, &tmMode{}) }
 
@@ -209,6 +209,15 @@ func (m *tmMode) write(path string, out, names, bad []string) error {
 		}
 		return strings.Join(qs, ",\n  ")
 	}
+	// the typed leaf node types (prognode.go)
+	nout, nnames, nbad := writeNodeFacts(m.l)
+	sb.WriteString("/-! ### the typed leaf node types of text/terminal and ast.TerminalNode: struct, constructor, methods (prognode.go) -/\nnamespace Src\n\n")
+	for _, s := range nout {
+		sb.WriteString(s + "\n")
+	}
+	sb.WriteString("end Src\n\n")
+	sb.WriteString("/-- the constructors and methods of the node types translated in the namespace Src -/\ndef translatedNodes : List String := [\n  " + q(nnames) + "]\n\n")
+	sb.WriteString("/-- what was asked for in the namespace Src and could not be translated, with the reason -/\ndef untranslatedNodes : List String := [\n  " + q(nbad) + "]\n\n")
 	sb.WriteString("/-- the functions translated above -/\ndef translatedTerm : List String := [\n  " + q(names) + "]\n\n")
 	sb.WriteString("/-- what the translator was asked for and could not translate, with the reason -/\ndef untranslatedTerm : List String := [\n  " + q(bad) + "]\n\nend PV.FactsTerm\n")
 	return os.WriteFile(path, []byte(sb.String()), 0o644)
